@@ -212,6 +212,11 @@ fn check_url_row(case: &Value, variant: usize, rep: &mut Report, accepted: &mut 
       if let Some(u) = acc {
         rep.count("urls_accepted");
         if accepted.len() < 150 {
+          // the same URL with the hex digits of its percent-encoded octets in the other case is a different string: it must be a
+          // different value to Eq, Ord and Hash alike (pair_laws), whatever RFC 3986 says about equivalence
+          if let Some(v) = other_hex_case(&u.to_string()).and_then(|t| DIDUrl::parse(t).ok()) {
+            accepted.push(v);
+          }
           accepted.push(u);
         }
       }
@@ -275,6 +280,29 @@ fn check_set_row(case: &Value, variant: usize, rep: &mut Report) {
         }
       }
     }
+  }
+}
+
+/// `%3a` <-> `%3A`: flips the case of every hex letter that belongs to a percent-encoded octet; None when nothing changes.
+fn other_hex_case(text: &str) -> Option<String> {
+  let mut out: Vec<u8> = text.as_bytes().to_vec();
+  let mut left = 0u8;
+  let mut changed = false;
+  for c in out.iter_mut() {
+    if *c == b'%' {
+      left = 2;
+    } else if left > 0 {
+      left -= 1;
+      if c.is_ascii_alphabetic() && c.is_ascii_hexdigit() {
+        *c ^= 0x20;
+        changed = true;
+      }
+    }
+  }
+  if changed {
+    String::from_utf8(out).ok()
+  } else {
+    None
   }
 }
 
